@@ -8,23 +8,55 @@ import json
 from . import gen, pred
 from .hist import walk_tiers, walk_crash
 
-RULE = ("history = generated typed schema x 20-40 small-domain events x config (zones mix matching and non-matching rows); "
+RULE = ("history = generated typed schema x 20-40 small-domain events x config (zones mix matching and non-matching rows), plus dense "
+        "histories (one segment of >10 zones per shard beside small segments, FLUSH between chunks, range probes at the data's extremes "
+        "so the >90%-hit full-scan fallback and pruned segments meet in one answer); "
         "~45 queries (single leaves of every (field kind, operator, literal kind) class, AND/OR/NOT trees to depth 3, FOR, "
         "SINCE..USING) asked in tiers mem/flush/c1/c2/restart/recovered; a case is one (query, tier) evaluation; "
         "distinct_nontrivial counts distinct (leaf class | tree shape, tier) pairs whose reference answer is neither empty nor all rows")
 
 
-def make_history(rng):
+def make_history(rng, dense=False):
     kinds = ["int", "float", "string", "bool", "enum", "datetime", "u64", "int", "string"]
     schema = gen.gen_schema(rng, "ev", kinds=kinds, nfields=rng.randint(3, 6))
     ctxs = [f"c{j}" for j in range(rng.randint(2, 5))]
+    if dense:
+        # segments with more than ten zones next to small ones: the range pruner gives up on a segment whose
+        # zones match a probe to >90% (full-scan fallback), so answers mix both zone sources
+        cfg = gen.gen_config(rng, shards=(1, 1, 2), zone=(1, 1, 2), fill=(100,))
+        per = cfg["event_per_zone"] * cfg["shard_count"]
+        chunks = [rng.randint(11, 15) * per + rng.randint(0, per)] + [rng.randint(1, 3 * per) for _ in range(rng.randint(1, 3))]
+        rng.shuffle(chunks)
+        events = gen.gen_events(rng, schema, sum(chunks), ctxs)
+        return schema, events, cfg, ctxs, chunks
     n = rng.randint(18, 40)
     events = gen.gen_events(rng, schema, n, ctxs)
     cfg = gen.gen_config(rng, zone=(1, 2, 3, 5, 8), fill=(1, 2, 3, 50))
-    return schema, events, cfg, ctxs
+    return schema, events, cfg, ctxs, None
 
 
-def build_queries(rng, schema, events, ctxs, nq):
+def wide_leaves(rng, schema, data_values):
+    """Range probes that hold for (nearly) every row: bounds at / next to the extremes of the data."""
+    out = []
+    for f in schema.fields:
+        if f.optional or f.kind not in ("int", "u64", "datetime"):
+            continue
+        present = sorted(v for v in data_values.get(f.name, []) if v is not None)
+        if not present:
+            continue
+        lo, hi = present[0], present[-1]
+        lo2 = next((v for v in present if v > lo), lo)
+        hi2 = next((v for v in reversed(present) if v < hi), hi)
+        for op, lit, lk in ((">=", lo, "wide_min"), (">", lo, "wide_above_min"), (">=", lo2, "wide_second_min"),
+                            ("<=", hi, "wide_max"), ("<", hi, "wide_below_max"), ("<=", hi2, "wide_second_max")):
+            if f.kind == "u64" and lit < 0:
+                continue
+            out.append(pred.Leaf(f.name, op, lit, lk, f"{f.name} {op} {pred.lit_text(lit)}"))
+    rng.shuffle(out)
+    return out
+
+
+def build_queries(rng, schema, events, ctxs, nq, wide=0):
     data_values = {}
     for e in events:
         for f in schema.fields:
@@ -62,6 +94,13 @@ def build_queries(rng, schema, events, ctxs, nq):
             t = rng.choice(vals) + rng.choice([0, 1, -1])
             q["since"] = (tf.name, t, rng.choice([json.dumps(str(t)), json.dumps(pred.iso(t))]))
         qs.append(q)
+    if wide:
+        clean2 = lambda f: (not f.optional) and f.kind in ("int", "u64", "enum", "datetime")
+        for j, l in enumerate(wide_leaves(rng, schema, data_values)[:wide]):
+            e = l
+            if j % 3 == 1:
+                e = pred.Bin("AND", l, pred.gen_leaf(rng, schema, data_values, clean2))
+            qs.append({"expr": e, "ctx": rng.choice(ctxs) if j % 4 == 3 else None, "since": None})
     # a few predicate-free scoped queries
     qs.append({"expr": None, "ctx": ctxs[0], "since": None})
     qs.append({"expr": None, "ctx": None, "since": None})
@@ -172,11 +211,19 @@ def _sig_of(q, schema, tier, direction):
 def history_task(task, wdir, res):
     import random
     rng = random.Random(task["seed"])
-    schema, events, cfg, ctxs = make_history(rng)
-    qs = build_queries(rng, schema, events, ctxs, task["nq"])
+    dense = task.get("kind") == "dense"
+    schema, events, cfg, ctxs, chunks = make_history(rng, dense)
+    qs = build_queries(rng, schema, events, ctxs, task["nq"], wide=18 if dense else 4)
     setup = [schema.define_cmd()]
     stores = [gen.store_cmd("ev", e["ctx"], e["payload"]) for e in events]
-    witness = {"seed": task["seed"], "config": cfg, "setup": setup, "stores": stores}
+    if chunks:
+        # FLUSH between the chunks: one segment of >10 zones per shard and a few small ones
+        at, out = 0, []
+        for c in chunks[:-1]:
+            out += stores[at:at + c] + ["FLUSH"]
+            at += c
+        stores = out + stores[at:]
+    witness = {"seed": task["seed"], "config": cfg, "setup": setup, "stores": stores, "nq": task["nq"], "kind": task.get("kind")}
     res.count("tasks"); res.count("histories")
     res.sample({"config": gen.cfg_desc(cfg), "define": setup[0], "events": len(events), "queries": [render(q) for q in qs[:4]]})
     refs = [reference(q, schema, events) for q in qs]
@@ -186,10 +233,19 @@ def history_task(task, wdir, res):
 
     def observe(tier, node):
         res.add_set("tiers", tier)
+        present = all_k
+        if tier == "recovered":
+            # what a crash loses is C01's business: after SIGKILL the reference is restricted to the events the
+            # recovered store still returns to the unfiltered query
+            rp = node.cmd("QUERY ev RETURN [k]")
+            if rp.rows is not None:
+                present = {r.get("k") for r in rp.dicts()}
+                res.count("recovered_events_lost_by_crash", len(all_k - present))
         for qi, q in enumerate(qs):
             rep = node.cmd(texts[qi])
             res.evaluations += 1
             must, mustnot = refs[qi]
+            must = must & present
             if rep.kind == "panic":
                 res.violation("query_panicked", {"tier": tier}, f"{texts[qi]}: {rep.message}", dict(witness, query=texts[qi], tier=tier))
                 continue
@@ -243,6 +299,8 @@ def run(run):
     n = 16 if run.tier == "quick" else 400
     nq = 45 if run.tier == "quick" else 60
     tasks = [{"name": f"h{i}", "seed": run.rng("hist", i).getrandbits(48), "nq": nq} for i in range(n)]
+    nd = 8 if run.tier == "quick" else 150
+    tasks += [{"name": f"d{i}", "seed": run.rng("dense", i).getrandbits(48), "nq": 24, "kind": "dense"} for i in range(nd)]
     run.min_distinct = 30
     run.assumptions = ["reference semantics: numeric comparison for int/u64/float/datetime fields against numeric (or time) literals, "
                        "equality only for string/enum/bool; comparisons involving null/absent fields and string ordering are unspecified "
@@ -254,4 +312,5 @@ def replay(run, path):
     with open(path) as f:
         w = json.load(f)
     seed = (w.get("witness") or {}).get("seed")
-    run.parallel(history_task, [{"name": "replay", "seed": seed, "nq": 45}], nproc=1)
+    wit = w.get("witness") or {}
+    run.parallel(history_task, [{"name": "replay", "seed": seed, "nq": wit.get("nq", 45), "kind": wit.get("kind")}], nproc=1)
